@@ -252,12 +252,48 @@ def ProfAcc.isBlocked (p : ProfAcc) (qname : String) (qt : Nat) (a : Addr) (l : 
 
 /-! ## The middleware -/
 
+/-- Everything a `*DeviceResultOK` carries besides the profile's access settings: the switches and
+settings of the `agd.Profile` and `agd.Device` records that the *later* stages act on (filtering,
+query log, billing, blocking mode …).  They are inputs of the middleware like everything else in the
+device result, and the statement quantifies over them: `isBlockedByAccess` has the whole profile and
+device in its hands (`ri.DeviceData()`), so the model carries them to be able to say — and the
+harness to be able to check — that the access decision does not look at any of them. -/
+structure DevAttrs where
+  /-- `Profile.FilteringEnabled`. -/
+  profFiltering : Bool := true
+  /-- `Device.FilteringEnabled`. -/
+  devFiltering : Bool := true
+  /-- `Profile.QueryLogEnabled`. -/
+  queryLog : Bool := true
+  /-- `Profile.IPLogEnabled`. -/
+  ipLog : Bool := true
+  /-- `Profile.Deleted`. -/
+  deleted : Bool := false
+  /-- `Profile.AutoDevicesEnabled`. -/
+  autoDevices : Bool := false
+  /-- `Profile.BlockChromePrefetch`, `BlockFirefoxCanary`, `BlockPrivateRelay`. -/
+  blockSpecial : Bool := false
+  /-- `Profile.BlockingMode` other than the default null-IP mode. -/
+  customBlockingMode : Bool := false
+  /-- `Profile.FilterConfig` with safe browsing, parental control and rule lists switched on. -/
+  filtersOn : Bool := false
+  /-- `Profile.Ratelimiter` is `agd.GlobalRatelimiter` (no rate limit of the profile's own). -/
+  globalRatelimiter : Bool := false
+  /-- `Device.LinkedIP` is the client's address. -/
+  linkedIP : Bool := false
+  /-- `Device.DedicatedIPs` is not empty. -/
+  dedicatedIPs : Bool := false
+  /-- `Device.Auth.Enabled` (with `DoHAuthOnly`). -/
+  auth : Bool := false
+deriving Repr, DecidableEq
+
 /-- The result of the device finder, an input of the middleware. -/
 inductive DevRes where
   /-- `nil`: no device / profile. -/
   | none
-  /-- `*DeviceResultOK`; `acc = none` is `access.EmptyProfile`. -/
-  | ok (acc : Option ProfAcc)
+  /-- `*DeviceResultOK`; `acc = none` is `access.EmptyProfile`; `attrs` is the rest of the profile and
+  device records. -/
+  | ok (acc : Option ProfAcc) (attrs : DevAttrs)
   | authFail
   | unknownDedicated
   | error
@@ -283,7 +319,7 @@ deriving Repr, DecidableEq
 
 /-- `ri.DeviceData()`'s profile, as far as access is concerned: only `*DeviceResultOK` has one. -/
 def DevRes.profAcc : DevRes → Option ProfAcc
-  | .ok (some p) => some p
+  | .ok (some p) _ => some p
   | _ => Option.none
 
 /-- `Middleware.isBlockedByAccess`: global address, global name, then the profile. -/
@@ -313,7 +349,7 @@ deriving Repr, DecidableEq
 
 def DevRes.kind : DevRes → DevKind
   | .none => .none
-  | .ok _ => .ok
+  | .ok _ _ => .ok
   | .authFail => .authFail
   | .unknownDedicated => .unknownDedicated
   | .error => .error
